@@ -35,10 +35,30 @@ def record_stream(make_client, settle=0.4):
         conn.close()
     t = threading.Thread(target=serve, daemon=True)
     t.start()
+    port = srv.getsockname()[1]
     watchdog(lambda: make_client(srv.getsockname()), 10)
     t.join(5)
     srv.close()
-    return bytes(data)
+    return Recorded(bytes(data), port)
+
+
+class Recorded(bytes):
+    """a recorded request; remembers the port of the recording server it was addressed to"""
+    def __new__(cls, data, port):
+        o = super().__new__(cls, data)
+        o.port = port
+        return o
+
+
+def retarget(stream, addr):
+    """the same request addressed to the server at `addr`: the pickled worker carries the address of its server (the
+    backend asserts that it is the one it was reached through) - replace the port of the recording server (a 2-byte
+    pickle integer) by the real one"""
+    port = getattr(stream, 'port', None)
+    if port is None or port < 256 or addr[1] < 256:
+        return stream
+    old, new = b'M' + struct.pack('<H', port), b'M' + struct.pack('<H', addr[1])
+    return stream.replace(old, new) if stream.count(old) else stream
 
 
 SLOW_MAIN = os.path.join(os.path.dirname(os.path.abspath(__file__)), 'site', 'pwv_slow_main.py')
@@ -78,7 +98,7 @@ def send_cut(addr, stream, offset, how='fin', hold=0.0):
     s.settimeout(5)
     s.connect(addr)
     if offset:
-        s.sendall(stream[:offset])
+        s.sendall(retarget(stream, addr)[:offset])
     if hold:
         time.sleep(hold)
     if how == 'rst':
@@ -95,11 +115,13 @@ def handshake_fault(addr, stream, step, how='fin'):
     """send the complete request, then fail at a step of the control handshake:
     'no-connect' (close the data socket without ever connecting the control socket),
     'connect-close' (connect the control socket, then close both at once),
-    'after-info' (read the runtime info, then close both: the worker is running, its client is gone)"""
+    'after-info' (read the runtime info, then close both: the worker is running, its client is gone),
+    'during-startup' (connect the control socket, stay for 0.6 s, then close both: the backend has passed its first checks
+    and is still starting up)"""
     s = socket.socket()
     s.settimeout(8)
     s.connect(addr)
-    s.sendall(stream)
+    s.sendall(retarget(stream, addr))
     ctrl = None
     try:
         ctrl_addr = read_msg(s)
@@ -109,6 +131,8 @@ def handshake_fault(addr, stream, step, how='fin'):
             ctrl.connect(tuple(ctrl_addr))
             if step == 'after-info':
                 read_msg(ctrl)
+            elif step == 'during-startup':
+                time.sleep(0.6)       # (request kind 'worker-slow': its backend is still importing its __main__ script)
     except Exception:
         pass
     for x in (ctrl, s):
